@@ -94,11 +94,11 @@ Qed.
 Print Assumptions for_quantifier_laws.
 
 Theorem for_range_laws : forall en q x lo hi body l h,
-  eval en lo = VInt l -> eval en hi = VInt h -> 0 < wrap64 (h - l + 1) <= max_iter ->
+  eval en lo = VInt l -> eval en hi = VInt h -> 0 < wrap64 (h - l + 1) ->
   eval en (EForRange QAny q x lo hi body)
-    = VBool (existsb (fun k => holds (bind x (VInt (wrap64 (l + k))) en) body) (zseq (wrap64 (h - l + 1)))) /\
+    = VBool (existsb (fun k => holds (bind x (VInt (range_item l k)) en) body) (zseq (wrap64 (h - l + 1)))) /\
   eval en (EForRange QAll q x lo hi body)
-    = VBool (forallb (fun k => holds (bind x (VInt (wrap64 (l + k))) en) body) (zseq (wrap64 (h - l + 1)))).
+    = VBool (forallb (fun k => holds (bind x (VInt (range_item l k)) en) body) (zseq (wrap64 (h - l + 1)))).
 Proof.
   intros en q x lo hi body l h Hl Hh Hn. split.
   - exact (for_range_any en q x lo hi body l h Hl Hh Hn).
